@@ -8,14 +8,16 @@ More == l <= Len(TraceLog)
 Consume == l' = l + 1
 TInit == HInit /\ l = 1
 TReset == More /\ Ev.e = "Reset" /\ Consume /\ readers' = {} /\ writer' = 0 /\ pend' = [t \in Threads |-> Idle]
-TSkip == More /\ Ev.e = "RWLock" /\ Consume /\ UNCHANGED hvars
+TSkip == More /\ Ev.e \in {"RWLock", "RWNest"} /\ Consume /\ UNCHANGED hvars
+\* a rejected call (tasklet caller) reports the documented error and has no effect
+TReject == More /\ Ev.e = "RWReject" /\ Consume /\ Ev.ret = 1 /\ UNCHANGED hvars
 TCall == More /\ Ev.e = "RWCall" /\ Consume /\ Call(Ev.t, Ev.op)
 TRet == More /\ Ev.e = "RWRet" /\ Consume /\ pend[Ev.t].op = Ev.op /\ Ret(Ev.t)
 TEnd == More /\ Ev.e = "End" /\ Consume
         /\ (Ev.why = "done" => readers = {} /\ writer = 0 /\ \A t \in Threads : IsIdle(t))
         /\ UNCHANGED hvars
 TLin == More /\ Ev.e = "RWRet" /\ ~pend[Ev.t].done /\ UNCHANGED l /\ \E t \in Threads : Lin(t)
-TNext == TReset \/ TSkip \/ TCall \/ TRet \/ TEnd \/ TLin
+TNext == TReset \/ TSkip \/ TReject \/ TCall \/ TRet \/ TEnd \/ TLin
 TSpec == TInit /\ [][TNext]_tvars
 NotAccepted == l <= Len(TraceLog)
 TrackMax == TLCSet(1, IF TLCGet(1) < l THEN l ELSE TLCGet(1))
